@@ -15,7 +15,9 @@ from harness import vlib
 from harness import c19lib as L
 
 THEOREMS = ["C19_trace_partial", "C19_trace_refuted", "C19_codec_union_refuted", "C19_mixin_once", "C19_context",
-            "C19_union_context_refuted", "C19_de_trace_partial", "C19_de_post_once"]
+            "C19_union_context_refuted", "C19_de_trace_partial", "C19_de_post_once", "C19_codec_subclass_refuted",
+            "C19_subclass_context_refuted", "C19_disc_config_dispatch", "C19_disc_annotated_dispatch",
+            "C19_disc_no_variant"]
 
 # ---------------------------------------------------------------------------
 # generators
@@ -195,9 +197,9 @@ def add_discriminators(rng, schema):
     for c, k in enumerate(classes):
         if k["parent"] is None and L.descendants(schema, c) and variants_safe(schema, c):
             r = rng.random()
-            if r < 0.3 and L.disc_variants(schema, c, True, False):
+            if r < 0.3 and callable_variants(schema, c, L.disc_variants(schema, c, True, False)):
                 k["disc"] = "field"
-            elif r < 0.42 and schema["kind"] in NO_FORMAT_METHOD:
+            elif r < 0.42 and schema["kind"] in NO_FORMAT_METHOD and callable_variants(schema, c, L.disc_variants(schema, c, False, False)):
                 k["disc"] = "nofield"
             if k.get("disc"):
                 k["tag"] = False
@@ -210,7 +212,7 @@ def add_discriminators(rng, schema):
                 continue
             if rng.random() < 0.4:
                 wf, sup = rng.random() < 0.65 or schema["kind"] not in NO_FORMAT_METHOD, rng.random() < 0.35
-                if L.disc_variants(schema, p, wf, sup):
+                if callable_variants(schema, p, L.disc_variants(schema, p, wf, sup)):
                     e["ty"] = conv_disc(e["ty"], p, wf, sup)
                     schema["has_disc"] = True
                     break
@@ -250,9 +252,10 @@ def gen_hier_schema(rng):
         if rng.random() < 0.4:
             hooks = {h: False for h in L.HOOKS}        # inherits everything
         classes.append({"parent": parent, "own_fields": own, "own_hooks": hooks,
-                        "own_ctx": rng.choice([None, None, None, True, False]), "tag": rng.random() < 0.85})
+                        "own_ctx": rng.choice([None, None, None, True] + ([] if base_ctx else [False])),
+                        "tag": rng.random() < 0.85})
     r = rng.random()
-    if r < 0.3 and L.disc_variants(schema, 1, True, False):
+    if r < 0.3 and callable_variants(schema, 1, L.disc_variants(schema, 1, True, False)):
         classes[1]["disc"], classes[1]["tag"] = "field", False
     elif r < 0.42 and kind in NO_FORMAT_METHOD:
         classes[1]["disc"], classes[1]["tag"] = "nofield", False
@@ -261,7 +264,7 @@ def gen_hier_schema(rng):
         if classes[1].get("disc") or rng.random() < 0.3:
             return ["dc", 1]
         wf, sup = rng.random() < 0.6 or kind not in NO_FORMAT_METHOD, rng.random() < 0.4
-        return ["disc", 1, wf, sup] if L.disc_variants(schema, 1, wf, sup) else ["dc", 1]
+        return ["disc", 1, wf, sup] if callable_variants(schema, 1, L.disc_variants(schema, 1, wf, sup)) else ["dc", 1]
     lk = lambda: rng.choice(["list", "tuple", "dict"])
     hf = []
     for _ in range(rng.choice([1, 2, 2, 3])):
@@ -276,10 +279,10 @@ def gen_hier_schema(rng):
 
 def callable_variants(schema, c, vs):
     """variants whose to_dict accepts every keyword the declared class c makes the caller pass (an opted-in base with a
-    subclass that opted out makes to_dict raise TypeError - a crash, not a hook matter); falls back to all"""
+    subclass that opted out makes to_dict raise TypeError - a crash, not a hook matter)"""
     ok = [v for v in vs if (L.ctx_on(schema, v) or not L.ctx_on(schema, c))
           and set(L.class_flags(schema, c)) <= set(L.class_flags(schema, v))]
-    return ok or vs
+    return ok
 
 
 def substitutable(schema, c):
@@ -530,6 +533,21 @@ def fixed_cases():
                       {"parent": None, "own_fields": [2], "own_hooks": mk(False, False, True, True), "own_ctx": None}]}
     out.append((s4, ["dc", 3], ["inst", 3, 101, None, [[2, ["list", "list", [
         ["inst", 1, 102, None, [[0, ["int", 1]], [1, ["int", 2]]]], ["inst", 2, 103, None, [[0, ["int", 3]]]]]]]]]))
+    # subclass instance where the parent is declared: H(a: A) holding A2(A); A2 adds hooks and a field
+    s5 = {"kind": "msgpack", "kw_only": True, "repl": False, "toml_safe": True,
+          "names": {"0": {"ty": ["int"], "default": False}, "1": {"ty": ["int"], "default": False},
+                    "2": {"ty": ["dc", 0], "default": False}},
+          "classes": [{"parent": None, "own_fields": [0], "own_hooks": mk(False, False, False, False), "own_ctx": None},
+                      {"parent": 0, "own_fields": [1], "own_hooks": mk(True, True, False, False), "own_ctx": None},
+                      {"parent": None, "own_fields": [2], "own_hooks": mk(False, False, False, False), "own_ctx": None}]}
+    out.append((s5, ["dc", 2], ["inst", 2, 101, None, [[2, ["inst", 1, 102, None, [[0, ["int", 1]], [1, ["int", 2]]]]]]]))
+    # Holder (opted in) with b: Base (not opted in) holding Sub(Base) (opted in)
+    s6 = {"kind": "dict", "kw_only": True, "repl": False, "toml_safe": True,
+          "names": {"0": {"ty": ["int"], "default": False}, "1": {"ty": ["dc", 0], "default": False}},
+          "classes": [{"parent": None, "own_fields": [0], "own_hooks": mk(False, False, False, False), "own_ctx": None},
+                      {"parent": 0, "own_fields": [], "own_hooks": mk(True, True, False, False), "own_ctx": True},
+                      {"parent": None, "own_fields": [1], "own_hooks": mk(True, True, False, False), "own_ctx": True}]}
+    out.append((s6, ["dc", 2], ["inst", 2, 101, None, [[1, ["inst", 1, 102, None, [[0, ["int", 1]]]]]]]))
     return out
 
 
@@ -575,6 +593,10 @@ def structural_kf(case):
     return None
 
 
+def thorough_tier(ctx):
+    return not ctx.quick()
+
+
 def run(ctx: vlib.Ctx):
     t_start = time.time()
     ctx.coverage["rule"] = (
@@ -601,7 +623,20 @@ def run(ctx: vlib.Ctx):
         "violations (property text: 'every instance that ends up in a deserialization result'); the model reproduces them exactly",
     ]
     # 1. theorems
-    ctx.theorems("props/C19_hooks.vo", THEOREMS)
+    br = ctx.theorems("props/C19_hooks.vo", THEOREMS)
+    if thorough_tier(ctx) and br.ok:
+        # second opinion: the standalone checker re-checks the compiled library and its whole cone
+        rc, out, secs = vlib.run(["timeout", "1500", "coqchk", "-o", "-silent", "-Q", "theories", "Verif", "-Q", "gen", "VerifGen",
+                                  "-Q", "props", "VerifProps", "VerifProps.C19_hooks"], cwd=vlib.COQ, timeout=1600)
+        import re as _re
+        m = _re.search(r"\* Axioms:\s*(.*?)\n\s*\n", out, _re.S)
+        axioms = " ".join(m.group(1).split()) if m else "?"
+        ok = rc == 0 and axioms == "<none>" and "type-in-type: <none>" in out and "unsafe (co)fixpoints: <none>" in out \
+            and "positivity is assumed: <none>" in out
+        ctx.obligation("coqchk -o VerifProps.C19_hooks", ok, f"rc={rc} Axioms: {axioms} ({secs:.0f}s)")
+        ctx.trusted.append(f"coqchk -o VerifProps.C19_hooks: Axioms: {axioms}; no type-in-type, no unsafe fixpoints, no assumed positivity")
+        if not ok:
+            ctx.not_shown("coqchk VerifProps.C19_hooks", out[-1500:])
 
     # 2+3. cases
     rng = ctx.rng
@@ -720,7 +755,7 @@ def run(ctx: vlib.Ctx):
                 root_ty = rng.choice([["dc", 1], ["list", "list", ["dc", 1]], ["opt", ["dc", 1]]])
             else:
                 wf, sup = rng.random() < 0.6 or schema["kind"] not in NO_FORMAT_METHOD, rng.random() < 0.4
-                root_ty = ["disc", 1, wf, sup] if L.disc_variants(schema, 1, wf, sup) and not schema["classes"][1].get("disc") else ["dc", n - 1]
+                root_ty = ["disc", 1, wf, sup] if callable_variants(schema, 1, L.disc_variants(schema, 1, wf, sup)) and not schema["classes"][1].get("disc") else ["dc", n - 1]
             roots.append((root_ty, gen_value_capped(rng, schema, root_ty, schema["toml_safe"])))
         do_schema(si, schema, roots)
         si += 1
